@@ -355,6 +355,11 @@ def sql_colcmp(ex, args, name):
     return P('colcmp', args[0], CMPOPS[op], args[1])
 
 
+@intr('entgo.io/ent/dialect/sql.Like')
+def sql_like(ex, args, name):
+    return P('like', args[0], args[1])
+
+
 @intr('entgo.io/ent/dialect/sql.IsNull')
 def sql_isnull(ex, args, name):
     return P('null', args[0], False)
@@ -544,6 +549,24 @@ def eval_pred(ex, db, p, ctx, alias):
         pre = p.a[1]
         t = simp(z3.PrefixOf(zstr(pre), zstr(v))) if (is_sym(pre) or is_sym(v)) else v.startswith(pre)
         return And(Not(n), t), And(Not(n), Not(t))
+    if k == 'like':
+        # SQL LIKE with an unescaped pattern: % = any sequence, _ = any one character (case-sensitive, as on PostgreSQL)
+        n, v, c = col_value(ex, ctx, colarg(ex, p.a[0], alias), db)
+        if n is True:
+            return False, False
+        pat_ = p.a[1]
+        if is_sym(pat_):
+            raise Unsupported('LIKE with a symbolic pattern')
+        if not is_sym(v):
+            rx = ''.join('.*' if ch == '%' else '.' if ch == '_' else re.escape(ch) for ch in pat_)
+            t = re.fullmatch(rx, v, re.S) is not None
+        else:
+            parts = []
+            for ch in pat_:
+                parts.append(z3.Star(z3.AllChar(z3.ReSort(z3.StringSort()))) if ch == '%' else z3.AllChar(z3.ReSort(z3.StringSort())) if ch == '_' else z3.Re(ch))
+            rx = parts[0] if len(parts) == 1 else z3.Concat(*parts) if parts else z3.Re('')
+            t = simp(z3.InRe(zstr(v), rx))
+        return And(Not(n), t), And(Not(n), Not(t))
     if k == 'and':
         rs = [eval_pred_any(ex, db, q, ctx, alias) for q in p.a[0]]
         return And(*[t for t, f in rs]), Or(*[f for t, f in rs])
@@ -675,10 +698,13 @@ def select_candidates(ex, db, sel):
 
 
 # ---------------------------------------------------------------- entity materialisation
-def entity_from_row(ex, db, e, r):
+def entity_from_row(ex, db, e, r, select=None):
+    """select: the column names of a Query().Select(...) - the other fields of the returned entity stay zero (the id is always read)"""
     t = '%s.%s' % (ENT, e)
     s = ex.zero(t)
     for c in db.schema.ent[e]:
+        if select and c.name != 'id' and c.name not in select:
+            continue
         v = r.v[c.name]
         n = r.isnull(c.name)
         if c.gotype.startswith('*'):
@@ -1301,7 +1327,7 @@ def query_terminal(ex, b, meth, a):
                     return ((None if meth in ('First', 'Only') else 0), perr)
                 if meth in ('FirstID', 'OnlyID'):
                     return (row.v['id'], None)
-                ep = entity_from_row(ex, db, e, row)
+                ep = entity_from_row(ex, db, e, row, b.select)
                 load_edges(ex, b, [(ep, row)])
                 return (ep, None)
         if meth in ('First', 'FirstID'):
@@ -1324,10 +1350,10 @@ def query_terminal(ex, b, meth, a):
                 return ((None if meth == 'Only' else 0), not_singular(ex, e))
             if meth in ('FirstID', 'OnlyID'):
                 return (rows[0].v['id'], None)
-            ep = entity_from_row(ex, db, e, rows[0])
+            ep = entity_from_row(ex, db, e, rows[0], b.select)
             load_edges(ex, b, [(ep, rows[0])])
             return (ep, None)
-        ents = [(entity_from_row(ex, db, e, r), r) for r in rows]
+        ents = [(entity_from_row(ex, db, e, r, b.select), r) for r in rows]
         load_edges(ex, b, ents)
         return (ex.mkslice([p for p, _ in ents]), None)
     raise Unsupported('%sQuery.%s' % (e, meth))
